@@ -118,7 +118,7 @@ impl Scenario for Diag {
     }
     fn rule(&self) -> &'static str {
         "full LSP stack; after the initial scan has reported completion, a generated history of didOpen/didChange over test files and \
-         conftests (introducing/removing undeclared uses, dependency cycles, scope inversions, syntax breaks and repairs) with a generated \
+         conftests - an open document is sometimes closed and opened again, document versions restart at 1 with every didOpen - (introducing/removing undeclared uses, dependency cycles, scope inversions, syntax breaks and repairs) with a generated \
          pyproject.toml variant (valid subsets, unknown codes, invalid globs, malformed TOML, absent), fragmented transport and late/erroring \
          inlayHint/refresh answers; after each notification, at quiescence, the last diagnostics received for that uri must equal the \
          library's findings on a fresh twin minus the validly disabled codes, with exactly one publish per notification; non-trivial = at \
